@@ -51,8 +51,19 @@ CODES = ("1 = what the destination holds afterwards, 2 = number of errors report
          "7 = the listing of a complete version does not meet the premise tree_listing")
 
 
-def evaluate(tag, rows, timeout=1800):
-    """-> list of codes (0 = agreement), or (None, text) when the evaluation itself failed"""
+def evaluate(tag, rows, timeout=1800, chunk=250):
+    """-> list of codes (0 = agreement), or (None, text) when the evaluation itself failed; sharded over several coqc runs"""
+    if len(rows) > chunk:
+        import concurrent.futures
+        parts = [rows[i:i + chunk] for i in range(0, len(rows), chunk)]
+        with concurrent.futures.ThreadPoolExecutor(max_workers=8) as ex:
+            outs = list(ex.map(lambda kp: evaluate(f"{tag}_{kp[0]}", kp[1], timeout, chunk), enumerate(parts)))
+        nums = []
+        for n_, txt in outs:
+            if n_ is None:
+                return None, txt
+            nums += n_
+        return nums, ""
     body = ("From CV Require Import Base.Str Apath Entry Valid Dest DestP DestTreeP.\nLocal Open Scope N_scope.\n"
             "Definition mk (p : str) (k : N) (c : bytes) (t : option str) : entry := {| e_apath := p; e_kind := (if N.eqb k 0 then KFile else if N.eqb k 1 "
             "then KDir else if N.eqb k 2 then KSymlink else KUnknown); e_mtime := 0%Z; e_nanos := 0; e_mode := 420; e_user := None; e_group := None; "
